@@ -768,7 +768,8 @@ def oracle(ctx, case, info):
                               f"clean end-of-body after {len(delivered)} of {len(ref[1])} bytes")
         else:
             if final == ("eof",):
-                kind = "incomplete-stream-clean-eof" if ref[0] == "incomplete" else "invalid-stream-clean-eof"
+                fam = header_encoding(enc)
+                kind = f"incomplete-{fam}-stream-clean-eof" if ref[0] == "incomplete" else f"invalid-{fam}-stream-clean-eof"
                 ctx.violation(f"C09/corrupt-delivered/{kind}", c,
                               f"reference decoder reports the {enc} stream as {ref[0]}, the consumer saw a clean end-of-body "
                               f"after {len(delivered)} bytes")
@@ -907,7 +908,74 @@ def finding_cases():
     trunc = {"side": "client", "enc": "gzip", "limit": 65536, "framing": "L", "body": hx(tr), "wire_segs": [hx(tr)],
              "merge_head": False, "ops": [], "shape": "random+trunc", "cms": 0, "post": False, "mode": "mixed",
              "close_after_wire": False, "close_early": False}
-    return [("F19", f19), ("stale-pause", stale), ("truncated", trunc)]
+    gz = gzip.compress(b"hello", mtime=0)
+    parked = {"side": "server", "enc": "gzip", "limit": 65536, "framing": "C", "body": hx(gz),
+              "wire_segs": [hx(b"%x\r\n" % len(gz) + gz[:-4]), hx(gz[-4:] + b"\r\nZZ\r\n")],
+              "merge_head": False, "ops": [["D"], ["Q", 0], ["D"]], "shape": "text+badchunk", "cms": 0, "post": False,
+              "mode": "req", "close_after_wire": False, "close_early": False}
+    out = [("F19", f19), ("stale-pause", stale), ("truncated", trunc), ("parked", parked)]
+    wire = b"9\r\n" + b"X" * 9 + b"\r\n5\r\nhello\r\n0\r\n\r\n"
+    out.append(("chunk-close", {"side": "client", "enc": "identity", "limit": 4, "framing": "C", "body": hx(b"X" * 9 + b"hello"),
+                                "wire_segs": [hx(wire)], "merge_head": False, "ops": [], "shape": "text", "cms": 0, "post": False,
+                                "mode": "mixed", "close_after_wire": True, "close_early": False}))
+    for enc in ("br", "zstd"):
+        if enc in available_encodings():
+            t = compress(enc, data)[:-20]
+            out.append(("truncated-" + enc, dict(trunc, enc=enc, body=hx(t), wire_segs=[hx(t)])))
+    if "br" in available_encodings():
+        b = compress("br", b"a" * 640)
+        out.append(("br-overshoot", dict(trunc, enc="br", limit=16, body=hx(b), wire_segs=[hx(b)], shape="bomb")))
+    return out
+
+
+# ------------------------------------------------------------------------------------ findings on a running (virtual-time) loop
+def vloop_scenarios(ctx):
+    """F19 and the stale-pause hang once more, this time with real coroutines on harness/common/vloop.py
+    (virtual time, quiescence = 'blocks forever') instead of hand-stepped coroutines."""
+    from .common import vloop
+    from aiohttp.client_proto import ResponseHandler
+
+    def make(loop, limit):
+        proto = ResponseHandler(loop)
+        proto.transport = MemTransport()
+        proto.set_response_params(read_until_eof=True, read_bufsize=limit, auto_decompress=True)
+        return proto
+
+    zeros = gzip.compress(b"\0" * 1_000_000, mtime=0)
+
+    async def f19():
+        loop = asyncio.get_running_loop()
+        proto = make(loop, 65536)
+        proto.data_received(b"HTTP/1.1 200 OK\r\nContent-Encoding: gzip\r\nContent-Length: %d\r\n\r\n" % len(zeros) + zeros)
+        msg, payload = proto._buffer[0]
+        proto.connection_lost(None)          # peer closes right after the last byte
+        try:
+            body = await payload.read()
+            return ("ok", len(body))
+        except Exception as e:
+            return ("err", err_name(e), payload.total_bytes)
+    res, excs, quiescent = vloop.run(f19)
+    ctx.case(("vloop", "f19"), sample={"vloop": "f19", "result": list(res) if res else None, "quiescent": quiescent})
+    if quiescent or (res and res[0] == "err") or (res and res[0] == "ok" and res[1] != 1_000_000):
+        ctx.violation("C09/lost-body/peer-close-while-decoder-pending", finding_cases()[0][1],
+                      f"real ResponseHandler on the virtual-time loop: complete gzip body (1 MB of zeros, {len(zeros)} B on the wire), "
+                      f"peer closes, then `await resp.content.read()` -> {res!r} quiescent={quiescent}")
+
+    async def stale():
+        loop = asyncio.get_running_loop()
+        proto = make(loop, 4)
+        proto.data_received(b"HTTP/1.1 200 OK\r\nTransfer-Encoding: chunked\r\n\r\n9\r\nXXXXXXXXX\r\n")
+        msg, payload = proto._buffer[0]
+        first = await payload.readany()
+        proto.data_received(b"5\r\nhello\r\n0\r\n\r\n")
+        rest = await payload.read()
+        return first + rest
+    res, excs, quiescent = vloop.run(stale)
+    ctx.case(("vloop", "stale"), sample={"vloop": "stale-pause", "result": repr(res), "quiescent": quiescent})
+    if quiescent or res != b"XXXXXXXXXhello":
+        ctx.violation("C09/no-progress/stale-parser-pause-pending-input", finding_cases()[1][1],
+                      f"real ResponseHandler on the virtual-time loop: complete chunked body delivered, reader drained the first "
+                      f"chunk, `await read()` never returns (loop quiescent={quiescent}, result={res!r})")
 
 
 # ------------------------------------------------------------------------------------ check
@@ -952,7 +1020,9 @@ def check(ctx):
     try:
         # fixed scenarios first (known findings keep their own signatures)
         run_and_compare(ctx, [c for _, c in finding_cases()], "pipeline vs Aio.C09.run (fixed scenarios)")
-        n = 1000 if ctx.quick else 24000
+        remove_patches()
+        vloop_scenarios(ctx)
+        n = 1500 if ctx.quick else 16000
         cases = []
         for _ in range(n):
             cases.append(gen_case(rng, ctx.quick, encs))
